@@ -212,6 +212,71 @@ pub fn check_eq_hash() -> (Vec<Finding>, u64) {
     (out, pairs)
 }
 
+/// Values that can be assembled through the public constructors but never come out of the
+/// parser (an attribute-less TXT, empty opaque data, parameter-less SVCB, window-less NSEC, ...):
+/// their clones and owned forms must still be equal, hash equally and serialise identically.
+pub fn check_odd_values() -> (Vec<Finding>, u64) {
+    use simple_dns::rdata::{self as rd, RData};
+    use simple_dns::{CharacterString, Name, CLASS};
+    let case = json!({"kind": "odd"});
+    let r = guarded(|| {
+        let mut vals: Vec<(&str, RData<'static>)> = Vec::new();
+        vals.push(("empty-TXT", RData::TXT(rd::TXT::new())));
+        vals.push(("default-TXT", RData::TXT(rd::TXT::default())));
+        vals.push(("TXT-one-empty-string", RData::TXT(rd::TXT::new().with_char_string(CharacterString::new(b"").unwrap()))));
+        vals.push(("TXT-two-strings", RData::TXT(rd::TXT::new().with_string("a=b").unwrap().with_string("c").unwrap())));
+        vals.push(("empty-NULL", RData::NULL(10, rd::NULL::new(&[]).unwrap())));
+        vals.push(("SVCB-no-params", RData::SVCB(rd::SVCB::new(0, Name::new_unchecked("")))));
+        vals.push(("HTTPS-no-params", RData::HTTPS(rd::HTTPS(rd::SVCB::new(1, Name::new_unchecked("a"))))));
+        vals.push(("NSEC-no-windows", RData::NSEC(rd::NSEC { next_name: Name::new_unchecked(""), type_bit_maps: vec![] })));
+        vals.push(("OPT-no-options", RData::OPT(rd::OPT { opt_codes: vec![], udp_packet_size: 0, version: 0 })));
+        vals.push(("empty-tails", RData::DNSKEY(rd::DNSKEY { flags: 0, protocol: 0, algorithm: 0, public_key: std::borrow::Cow::Borrowed(&[]) })));
+        vals.push(("Empty-A", RData::Empty(simple_dns::TYPE::A)));
+        let mut bad: Vec<(String, String)> = Vec::new();
+        let mut n = 0u64;
+        for (tag, v) in &vals {
+            n += 1;
+            for (op, c) in [("clone", v.clone()), ("into_owned", v.clone().into_owned())] {
+                if c != *v {
+                    bad.push((format!("{}|{}-eq", tag, op), format!("{} of {} does not compare equal to the original", op, tag)));
+                }
+                if h(&c) != h(v) {
+                    bad.push((format!("{}|{}-hash", tag, op), format!("{} of {} hashes differently", op, tag)));
+                }
+                let ra = ResourceRecord::new(Name::new_unchecked("o.example"), CLASS::IN, 1, v.clone());
+                let rb = ResourceRecord::new(Name::new_unchecked("o.example"), CLASS::IN, 1, c.clone());
+                if ser_rr(&ra) != ser_rr(&rb) {
+                    bad.push((format!("{}|{}-bytes", tag, op), format!("{} of {} serialises differently", op, tag)));
+                }
+                if ra != rb || h(&ra) != h(&rb) || ra.clone().into_owned() != ra {
+                    bad.push((format!("{}|record-{}", tag, op), format!("record holding the {} of {} differs", op, tag)));
+                }
+                // the copy must keep behaving like the original when it is extended afterwards
+                if let (RData::TXT(a), RData::TXT(b)) = (v, &c) {
+                    let (mut a, mut b) = (a.clone(), b.clone());
+                    let _ = a.add_string("k=v");
+                    let _ = b.add_string("k=v");
+                    let ra = ResourceRecord::new(Name::new_unchecked("o.example"), CLASS::IN, 1, RData::TXT(a));
+                    let rb = ResourceRecord::new(Name::new_unchecked("o.example"), CLASS::IN, 1, RData::TXT(b));
+                    if ra != rb || ser_rr(&ra) != ser_rr(&rb) {
+                        bad.push((format!("{}|{}-then-add_string", tag, op), format!("after add_string the {} of {} differs from the original treated the same way", op, tag)));
+                    }
+                    if let Ok(bytes) = ser_rr(&rb) {
+                        if Packet::parse(&bytes).is_err() {
+                            bad.push((format!("{}|{}-then-add_string-unparseable", tag, op), "extended copy serialises to a message that does not parse".into()));
+                        }
+                    }
+                }
+            }
+        }
+        (bad, n)
+    });
+    match r {
+        Err(pn) => (vec![finding(format!("C16|odd|{}", pn.sig()), format!("{:?}", pn), case)], 0),
+        Ok((bad, n)) => (bad.into_iter().map(|(t, d)| finding(format!("C16|odd|{}", t), d, case.clone())).collect(), n),
+    }
+}
+
 fn permutations<T: Clone>(v: &[T]) -> Vec<Vec<T>> {
     if v.len() <= 1 {
         return vec![v.to_vec()];
@@ -317,6 +382,12 @@ pub fn run(ctx: &Ctx) {
     t.outcome("eq-hash");
     ctx.violations(f);
     ctx.space("equality / hash: all ordered pairs of 72 records (and of their names and RDATA)", pairs, "complete");
+    let (f, n) = check_odd_values();
+    t.evals += n;
+    t.nontrivial += n;
+    t.outcome("odd-values");
+    ctx.violations(f);
+    ctx.space("constructible-but-never-parsed values (attribute-less TXT, empty NULL, parameter-less SVCB/HTTPS, window-less NSEC, option-less OPT, empty tails): clone / into_owned / extend-after-copy", n, "complete");
     let mut total = 0u64;
     for nip in 0..=4usize {
         for nport in 0..=4usize {
@@ -345,6 +416,7 @@ pub fn replay(case: &Value) -> Vec<Finding> {
             Err(e) => vec![finding("C16|replay-unreadable", format!("{}", e), case.clone())],
         },
         "eqhash" => check_eq_hash().0,
+        "odd" => check_odd_values().0,
         "instances" => check_instances(case["ips"].as_u64().unwrap_or(0) as usize, case["ports"].as_u64().unwrap_or(0) as usize).0,
         _ => vec![],
     }
